@@ -86,6 +86,10 @@ def conclude(prop, tier, seed, comps, metas, results, infra, t_start, verbose=Fa
         c, g = gmap[gname]
         if r['infra']:
             infra.append('%s: %s' % (gname, r['infra']))
+            for o in r.get('fallback_failures', []):
+                # found by the bounded fall-back of a group whose loop contracts no longer fit: a real failing path
+                if belongs(o, g.properties, prop) and not match_known(known, prop, gname, o):
+                    violations.append((c, g, r, o))
             continue
         obs = r['obligations']
         if not obs:
@@ -107,6 +111,14 @@ def conclude(prop, tier, seed, comps, metas, results, infra, t_start, verbose=Fa
             if not any('loop_invariant_step' in (o['name'] or '') or 'loop invariant is preserved' in o['description'].lower() or 'step' in (o['name'] or '') for o in obs):
                 infra.append('%s: loop contract of %s silently dropped (no loop_invariant_step obligation)' % (gname, g.enforce))
         mine = [o for o in obs if 'VACUITY' not in o['tags'] and belongs(o, g.properties, prop)]
+        # a failed frame obligation on a LOCAL VARIABLE of the function under proof ("Check that i is assignable" for a
+        # plain identifier declared in that function) says that a loop contract does not list a new or renamed local: the
+        # contract is incomplete, nothing caller-visible is involved -> undecided, never a violation
+        local_frame = [o for o in mine if o['status'] != 'SUCCESS' and is_local_frame_failure(o, metas.get(c.name, {}))]
+        for o in local_frame:
+            infra.append('%s: loop contract of %s does not list the local variable %s (new or renamed local?)' % (
+                gname, o.get('function'), re.match(r'^\s*Check that (\w+) is assignable', o['description']).group(1)))
+        mine = [o for o in mine if o not in local_frame]
         ok = [o for o in mine if o['status'] == 'SUCCESS']
         bad = [o for o in mine if o['status'] != 'SUCCESS']
         if g.level == 'bounded':
@@ -197,6 +209,30 @@ def conclude(prop, tier, seed, comps, metas, results, infra, t_start, verbose=Fa
     print('%s tier=%s: %d/%d proof obligations discharged, %d/%d bounded, %d groups, %d known findings, %d violations, %d undecided, %.1fs' % (
         prop, tier, n_ok, n_ob, n_bounded_ok, n_bounded, len(groups_ev), len(printed), len(violations), len(infra), wall))
     return rc
+
+
+_body_cache = {}
+
+
+def is_local_frame_failure(o, meta):
+    m = re.match(r'^\s*Check that (\w+) is assignable\s*$', o.get('description', ''))
+    if not m or o.get('tags'):
+        return False
+    var, fn, cfile = m.group(1), o.get('function'), meta.get('cfile')
+    if not fn or not cfile or not os.path.exists(cfile):
+        return False
+    if cfile not in _body_cache:
+        _body_cache[cfile] = open(cfile).read()
+    text = _body_cache[cfile]
+    fm = re.search(r'/\*@FUNC %s\*/\n(.*?)\n\}\n' % re.escape(fn), text, re.S)
+    if not fm:
+        return False
+    body = fm.group(1)
+    sig, rest = body.split('\n', 1) if '\n' in body else (body, '')
+    if re.search(r'\b%s\b' % re.escape(var), sig):
+        return False    # a parameter: caller-visible when it is a pointer target; keep it a real frame failure
+    # declared as a local inside the function body: "<type> var;" or "<type> var = ..."
+    return re.search(r'^\s*(?:const\s+)?[A-Za-z_][\w \*]*?[\s\*]%s\s*(=|;)' % re.escape(var), rest, re.M) is not None
 
 
 LEVELS = None
